@@ -342,9 +342,18 @@ func runC07(r *Run, verifDir string) {
 			}
 			if hasGrow && growCall.Call.Args[0] == other {
 				// grow amount need - cap(buf), executed under need > cap(buf)
-				if sub, ok := growCall.Call.Args[1].(*ssa.BinOp); ok && sub.Op == token.SUB && sub.X == ssa.Value(needPhi) {
+				isCapOf := func(v, buf ssa.Value) bool {
+					c, ok := v.(*ssa.Call)
+					if !ok {
+						return false
+					}
+					b, ok := c.Call.Value.(*ssa.Builtin)
+					return ok && b.Name() == "cap" && len(c.Call.Args) == 1 && c.Call.Args[0] == buf
+				}
+				// Grow(buf, need-cap(buf)) executed under need > cap(buf): the amount is positive and the result has cap >= need
+				if sub, ok := growCall.Call.Args[1].(*ssa.BinOp); ok && sub.Op == token.SUB && sub.X == ssa.Value(needPhi) && isCapOf(sub.Y, other) {
 					for _, dc := range dominatingConds(growCall.Block()) {
-						if bo, ok := dc.cond.(*ssa.BinOp); ok && dc.outcome && bo.Op == token.GTR && bo.X == ssa.Value(needPhi) {
+						if bo, ok := dc.cond.(*ssa.BinOp); ok && dc.outcome && bo.Op == token.GTR && bo.X == ssa.Value(needPhi) && isCapOf(bo.Y, other) {
 							capOK = true
 						}
 					}
@@ -355,7 +364,7 @@ func runC07(r *Run, verifDir string) {
 	if capOK {
 		r.OK("C07.S6", "ttlv.Stream.Recv/cap", readCall.Pos(), "buf = need > cap(buf) ? Grow(buf, need-cap(buf)) : buf, hence cap(buf) >= need at buf[read:need]")
 	} else {
-		r.Bad("C07.S6", "ttlv.Stream.Recv/cap", readCall.Pos(), "buf[read:need] is not preceded by the growth idiom that makes cap(buf) >= need: slice bounds out of range on a message larger than the initial buffer")
+		r.Bad("C07.S6", "ttlv.Stream.Recv/cap", readCall.Pos(), "buf[read:need] is not preceded by the growth idiom `if need > cap(buf) { buf = slices.Grow(buf, need-cap(buf)) }`: either cap(buf) < need at the slice (bounds panic on a message larger than the buffer) or Grow is called with a negative amount (panic) — in the connection's read loop, which has no recover")
 	}
 	// (b) loop edge only under read < need
 	backOK := false
